@@ -213,7 +213,7 @@ pub struct Shadow {
     /// the last write on this file (event seq), for "most recently written" choices
     pub last_write_seq: u64,
     /// index of a record whose data part is still to be written: (rec index in phys[blob], offset, len)
-    pub awaiting_data: Option<(usize, u64, u64)>,
+    pub awaiting_data: Vec<(usize, u64, u64)>,
     /// bytes reserved by failed writes (holes) exist
     pub has_holes: bool,
     /// event seq of the first record write acknowledged (C12a) / first sync
@@ -222,6 +222,9 @@ pub struct Shadow {
     /// the storage holds this file through an O_APPEND descriptor (IoDriver::open): the kernel
     /// ignores the offset of positional writes and appends at the end of file
     pub append_mode: bool,
+    /// ranges below the end of the file that no write has covered yet (a later reservation was
+    /// written before an earlier one): filling them modifies no stored byte
+    pub gaps: Vec<(u64, u64)>,
 }
 
 #[derive(Clone, Debug)]
@@ -525,7 +528,8 @@ impl World {
                 sh.synced_len = sh.content.len() as u64;
                 sh.pending.clear();
                 sh.removed = false;
-                sh.awaiting_data = None;
+                sh.awaiting_data.clear();
+                sh.gaps.clear();
             }
             None => {
                 let _ = std::fs::remove_file(&path);
@@ -674,7 +678,8 @@ impl Inner {
         let key_len = self.key_len;
         let tag = self.eff_tag();
         // continuation (data part of a two-buffer record)?
-        let awaiting = self.shadows.get(name).and_then(|s| s.awaiting_data);
+        // (several records can be half-written at a time when closures of a cancelled and of a later operation overlap)
+        let awaiting = self.shadows.get(name).and_then(|s| s.awaiting_data.iter().copied().find(|&(_, o, l)| o == offset && l == data.len() as u64));
         if let Some((idx, exp_off, exp_len)) = awaiting {
             if exp_off == offset && exp_len == data.len() as u64 {
                 if let Some(recs) = self.phys.get_mut(&blob) {
@@ -688,7 +693,7 @@ impl Inner {
                     }
                 }
                 if let Some(s) = self.shadows.get_mut(name) {
-                    s.awaiting_data = None;
+                    s.awaiting_data.retain(|&(i, _, _)| i != idx);
                 }
                 return;
             }
@@ -738,7 +743,7 @@ impl Inner {
             let idx = recs.len() - 1;
             if !includes_data && kept == data.len() {
                 if let Some(s) = self.shadows.get_mut(name) {
-                    s.awaiting_data = Some((idx, offset + data.len() as u64, total - in_buf_total));
+                    s.awaiting_data.push((idx, offset + data.len() as u64, total - in_buf_total));
                 }
             }
         } else {
@@ -910,11 +915,32 @@ impl SimHooks for World {
             }
             let end = w.shadows.get(&name).unwrap().content.len() as u64;
             if is_blob && offset < end {
-                let v = Violation::new("C07", "C07.append-only", "write below the end of a blob file", format!("write to {} at offset {} len {} but file end is {}", name, offset, data.len(), end));
-                w.violations.push(v);
+                // legal only inside a range that was reserved but never written
+                let wend = offset + kept.max(1) as u64;
+                let gi = w.shadows.get(&name).unwrap().gaps.iter().position(|&(a, b)| a <= offset && wend <= b);
+                match gi {
+                    Some(i) => {
+                        w.probes.bump("blob_gap_filled_out_of_order");
+                        let sh = w.shadows.get_mut(&name).unwrap();
+                        let (a, b) = sh.gaps.remove(i);
+                        if a < offset {
+                            sh.gaps.push((a, offset));
+                        }
+                        if offset + (kept as u64) < b {
+                            sh.gaps.push((offset + kept as u64, b));
+                        }
+                    }
+                    None => {
+                        let v = Violation::new("C07", "C07.append-only", "write over bytes already written to a blob file", format!("write to {} at offset {} len {} but file end is {} (unwritten ranges below the end: {:?})", name, offset, data.len(), end, w.shadows.get(&name).unwrap().gaps));
+                        w.violations.push(v);
+                    }
+                }
             }
             if is_blob && offset > end {
                 w.probes.bump("blob_write_gap");
+                if kept > 0 {
+                    w.shadows.get_mut(&name).unwrap().gaps.push((end, offset));
+                }
             }
             let sh = w.shadows.get_mut(&name).unwrap();
             if kept > 0 {
@@ -1095,6 +1121,7 @@ impl SimHooks for World {
         let track = w.track_durable;
         if let Some(sh) = w.shadows.get_mut(&name) {
             sh.content.clear();
+            sh.gaps.clear();
             sh.synced_len = 0;
             if track {
                 // model: truncation of an index is durable when performed
